@@ -569,11 +569,17 @@ func longSeq(g lstore.Geometry, depth, faults int) func() {
 		all := []lstore.Obj{u.A, u.C, u.F, u.G}
 		nops := 8
 		if g.Persistent {
-			nops = 9
+			nops = 10
 		}
 		for i := 0; i < depth; i++ {
 			k := vsched.ChooseFree("choice", nops)
 			switch {
+			case k == 9:
+				// the process ends here (nothing is held open between operations) and the store is started
+				// again on the same media: restored blocks own their regions again
+				monitors(e.s)
+				e.s = e.s.Restart(g)
+				vsched.Obs("restart=%d", e.s.InitialBlocks)
 			case k == 8:
 				n := e.s.StepSyncers(context.Background(), 1)
 				vsched.Obs("sync=%d", n)
